@@ -49,11 +49,11 @@ func (dm *defaultMkdirerPipeline) worker(ctx context.Context, wg *sync.WaitGroup
 			verifPoint("mkdir.recv")
 			if dm.isExistRoot([]*Node{root}) {
 				verifPoint("mkdir.err")
-				errc <- ErrExistPath
+				sendErr(ctx, errc, ErrExistPath)
 				return
 			}
 			if err := dm.makeDirectoriesAndFiles(root); err != nil {
-				errc <- err
+				sendErr(ctx, errc, err)
 				return
 			}
 		}
